@@ -143,6 +143,13 @@ func cmdCheck(args []string) int {
 		r.jobBudget = 90
 	}
 	c := &CheckCtx{P: p, Tier: *tier, Seed: seed, L: L, R: r, Extra: map[string]interface{}{}}
+	// replay files of earlier runs of this property are stale by now
+	for _, pat := range []string{p.ID + "-*.json"} {
+		old, _ := filepath.Glob(filepath.Join(verifDir, "replays", pat))
+		for _, f := range old {
+			os.Remove(f)
+		}
+	}
 	jobs := p.Jobs(*tier, seed)
 	c.Results = r.RunJobs(jobs)
 	if os.Getenv("ZSYM_SLOW") != "" {
